@@ -83,6 +83,32 @@ func c07Fixed(c *fw.Ctx, i int) {
 }
 
 func c07Walk(c *fw.Ctx, i int) {
+	if i == 5 {
+		// 300 wraps without a single look at the count, then one look: the count is kept up to date by drawing values alone
+		seq := rtp.NewFixedSequencer(1)
+		n := 300*65536 + 17
+		prev := uint16(0)
+		for k := 0; k < n; k++ {
+			v := seq.NextSequenceNumber()
+			if v != prev+1 {
+				c.Fail("C07/sequential/step", fmt.Sprintf("%d followed by %d", prev, v), fw.W("k", k))
+				return
+			}
+			prev = v
+		}
+		c.Evals(n)
+		if r := seq.RollOverCount(); r != 300 {
+			c.Fail("C07/sequential/rollover-count", fmt.Sprintf("after 300 wraps without any RollOverCount call in between RollOverCount = %d", r), fw.W("values_drawn", n))
+			return
+		}
+		if r := seq.RollOverCount(); r != 300 {
+			c.Fail("C07/sequential/rollover-count", fmt.Sprintf("a second RollOverCount call returns %d", r), fw.W("values_drawn", n))
+			return
+		}
+		c.Shapef("walk-300-wraps-unobserved")
+		c.Sample(map[string]any{"start": 1, "steps": n, "wraps": 300, "count_read": "once, at the end"})
+		return
+	}
 	starts := []uint16{0, 1, 32767, 65535, 65534}
 	var s uint16
 	if i < len(starts) {
